@@ -61,8 +61,40 @@ class Obligation:
         self.verdict = None
 
     def smt2(self):
-        from .smt import to_smt2
-        return to_smt2(self.assertions + theory_axioms(self.assertions))
+        if getattr(self, "_smt2", None) is None:
+            from .smt import to_smt2
+            self._smt2 = to_smt2(self.assertions + theory_axioms(self.assertions))
+        return self._smt2
+
+    def smt2_expanded(self, B):
+        cache = self.__dict__.setdefault("_smt2_b", {})
+        if B not in cache:
+            self.materialise()
+            from .smt import to_smt2, bounded_expand
+            exp = bounded_expand(self.assertions, B)
+            cache[B] = to_smt2(exp + theory_axioms(exp))
+        return cache[B]
+
+    def stub(self):
+        """picklable form (no z3 objects) for obligations generated in a worker process"""
+        return dict(id=self.id, kind=self.kind, expect=self.expect, meta=self.meta, smt2=self.smt2(),
+                    smt2_b={B: self.smt2_expanded(B) for B in ((2,) if self.expect == "sat" else ())})
+
+    @classmethod
+    def from_stub(cls, d, regen):
+        o = cls(d["id"], d["kind"], [], expect=d["expect"], meta=d["meta"])
+        o._smt2, o._smt2_b, o.regen = d["smt2"], dict(d["smt2_b"]), regen
+        return o
+
+    def materialise(self):
+        """z3 objects for an obligation that came from a worker: regenerate in this process"""
+        if self.assertions or getattr(self, "regen", None) is None:
+            return self
+        for o in self.regen():
+            if o.id == self.id:
+                self.assertions, self.inputs, self.result_val = o.assertions, o.inputs, o.result_val
+                return self
+        raise RuntimeError(f"obligation {self.id} not regenerated")
 
 
 class Verifier:
